@@ -283,4 +283,4 @@ def _obligations():
 
 
 def obligations():
-    return _obligations() + [effects_obligation("C07")]
+    return _obligations() + [labels_obligation("C07"), effects_obligation("C07")]
